@@ -85,11 +85,11 @@ def check_structure(expected_elems, n_insts, real_elems, stray):
 
 
 # ------------------------------------------------------------------------------------------------ chain stratum
+_NEXT = ('{% if ones %}{% for one in ones %}{% component "chain" pat=rest ones=ones / %}{% endfor %}'
+         '{% else %}{% component "chain" pat=rest ones=ones / %}{% endif %}')
 CHAIN_TMPL = (
-    '{% if wrap %}<div data-e="w" data-o="{{ cid }}">x{% if more %}{% for one in ones %}{% component "chain" pat=rest ones=ones / %}'
-    '{% endfor %}{% endif %}y</div>'
-    '{% else %}{% if more %}{% for one in ones %}{% component "chain" pat=rest ones=ones / %}{% endfor %}'
-    '{% else %}<span data-e="leaf" data-o="{{ cid }}">z</span>{% endif %}{% endif %}'
+    '{% if wrap %}<div data-e="w" data-o="{{ cid }}">x{% if more %}' + _NEXT + '{% endif %}y</div>'
+    '{% else %}{% if more %}' + _NEXT + '{% else %}<span data-e="leaf" data-o="{{ cid }}">z</span>{% endif %}{% endif %}'
 )
 
 
@@ -134,11 +134,15 @@ def run_chain(ch, params, knobs, mode, w, stats, violations, decoded):
     else:
         pat = "".join("wt"[ch.draw(2, "lvl")] for _ in range(min(depth, 24)))
         pat = (pat * (depth // len(pat) + 1))[:depth]
+    through_loops = ch.chance(1, 2, "chain_through_loops")
     build_chain_class()
     w.begin_op()
     try:
         with R.StepBudget(40_000 * depth + 300_000):
-            html = Template('<section data-e="page">{% component "chain" pat=pat / %}</section>').render(Context({"pat": pat}))
+            # through {% for %} (the chain of parentloops grows with the depth; snapshotting it is quadratic) up to depth 700
+            ones = [1] if (depth <= 700 and through_loops) else []
+            html = Template('<section data-e="page">{% component "chain" pat=pat ones=ones / %}</section>').render(
+                Context({"pat": pat, "ones": ones}))
         real = ("ok", str(html))
     except world.StepBudgetExceeded as e:
         real = ("hang", str(e))
@@ -161,7 +165,7 @@ def run_chain(ch, params, knobs, mode, w, stats, violations, decoded):
             violations.append({"class": bad[0], "fingerprint": ["chain", bad[0]],
                                "detail": {"depth": depth, "pattern": pat[:80], "what": bad[1]}})
     w.log("chain", depth, pat[:50], real[0])
-    return {"stratum": "chain", "depth": depth, "pattern": pat[:200]}
+    return {"stratum": "chain", "depth": depth, "pattern": pat[:200], "through_loops": bool(ones)}
 
 
 def run(ch, params, decoded=False):
